@@ -196,9 +196,10 @@ def effect (a : AState) : Call → AState
 def specStep (a : AState) (c : Call) : AOut :=
   if !a.opened then { st := a, err := .ebadid }
   else match c with
-  -- close and abort always release the ncid; close reports requests that were still pending
+  -- close and abort always release the ncid; both report requests that were still pending (NC_EPENDING:
+  -- the requests are cancelled, the call has otherwise done its work)
   | .close => { st := aclosed, err := if a.nGet + a.nPut > 0 then .epending else .noerr }
-  | .abort => { st := aclosed, err := .noerr, del := a.isNew }
+  | .abort => { st := aclosed, err := if a.nGet + a.nPut > 0 then .epending else .noerr, del := a.isNew }
   | _ =>
     let e := specErr a c
     if e != .noerr then { st := a, err := e }               -- a rejected call has no effect
